@@ -64,6 +64,36 @@ let run_chars (v : vt) (cs : n list) : (vt * func option) res * int =
   let r = go v cs in
   (r, !early)
 
+(* ---- exhaustive parser sweep (SW / RUN records) ---- *)
+let breakpoints : int list =
+  let pts = ref [ int_of_n hi_threshold ] in
+  List.iter
+    (fun (pats, _) ->
+      List.iter (fun ((_, lo), hi) -> pts := int_of_n lo :: (int_of_n hi + 1) :: !pts) pats)
+    feed_arms;
+  List.sort_uniq compare !pts
+
+let sweep_parser : parser0 option ref = ref None
+let sweep_state = ref 0
+let sweep_cells = ref 0
+let sweep_points = ref 0
+let sweep_runs = ref 0
+
+let feed_all (p : parser0) (cs : n list) : parser0 option =
+  List.fold_left
+    (fun acc c -> match acc with None -> None | Some p -> (match feedM p c with Model.Ok (p', _) -> Some p' | Panic _ -> None))
+    (Some p) cs
+
+let model_sig (p : parser0) (c : int) : str =
+  match feedM p (n_of_int c) with
+  | Panic s -> "PANIC " ^ string_of_int (int_of_nat s)
+  | Model.Ok (p', f) ->
+      let st = string_of_int (int_of_pstate p'.pst) in
+      (match f with
+       | None -> st ^ " -"
+       | Some (Print x) when int_of_n x = c -> st ^ " Print self"
+       | Some f -> st ^ " " ^ str_of_func f)
+
 let () =
   let file = Sys.argv.(1) in
   let ic = open_in file in
